@@ -107,6 +107,20 @@ func (c *symConn) lastIsCease() bool {
 	return verifAnd(len(w) >= 21, verifAnd(verifAt(w, 18) == notificationMessageType, verifAt(w, 19) == NOTIF_CODE_CEASE))
 }
 
+// ceaseSent: a Cease NOTIFICATION was written, and nothing but UPDATEs of concurrent WriteUpdate callers after it
+func (c *symConn) ceaseSent() bool {
+	seen := false
+	for _, w := range c.writes {
+		isCease := len(w) >= 21 && verifAt(w, 18) == notificationMessageType && verifAt(w, 19) == NOTIF_CODE_CEASE
+		if isCease {
+			seen = true
+		} else if seen && verifAt(w, 18) != updateMessageType {
+			return false
+		}
+	}
+	return seen
+}
+
 func (c *symConn) wroteOpenFirst() bool {
 	return len(c.writes) >= 1 && verifAt(c.writes[0], 18) == openMessageType
 }
